@@ -1,0 +1,17 @@
+//go:build verif
+
+package schnorr
+
+import "github.com/ModChain/secp256k1"
+
+// VerifSchnorrSign exposes schnorrSign with a caller-chosen nonce.
+func VerifSchnorrSign(priv, nonce *secp256k1.ModNScalar, hash []byte) (*Signature, error) {
+	return schnorrSign(priv, nonce, hash)
+}
+
+// VerifSchnorrVerify exposes schnorrVerify (error carries the kind).
+func VerifSchnorrVerify(sig *Signature, hash []byte, pub *secp256k1.PublicKey) error {
+	return schnorrVerify(sig, hash, pub)
+}
+
+func VerifExtraDataV0() [32]byte { return rfc6979ExtraDataV0 }
